@@ -69,6 +69,7 @@ def run(ctx):
                 strings.append(spell(e, rng))
     for _ in range(ctx.n(30000, 1500000)):
         strings.append(spell(rand_eff(rng), rng))
+    strings += core.singletons("4", rng, ctx.n(400, 6000))
     # all base-only vectors of a slice (thorough: all 104,976)
     if ctx.tier == "thorough":
         strings += [render("4", a) for a in enum.all_base("4")]
